@@ -68,6 +68,7 @@ def run(run, args):
     run.oblige("C-binding driver builds against /repo/bindings/c", ok, log[-400:] if not ok else "")
     if not ok:
         violation(run, {"broken": "the driver does not build against /repo/bindings/c", "detail": log[-3000:]}, nofail=True)
+    source_tie(run, ("cbind",))
     rc, out, _ = make(["model/CBindCheck.vo"])
     if rc != 0:
         violation(run, {"broken": "model files do not build", "detail": out[-3000:]}, nofail=True)
